@@ -2,7 +2,8 @@
 # Runs the repository's pinned test suite (guard off) and prints pass/fail counts; exit 0 iff the 81 stable tests pass.
 cd "${MOLLI_REPO:-/repo}" || exit 2
 out=$(mktemp)
-/venv/bin/python -m pytest -ra -q -p no:cacheprovider --timeout=900 --continue-on-collection-errors --junitxml="$out.xml" > "$out" 2>&1
+home=$(mktemp -d)     # private MOLLI_HOME: the suite's scratch directory is derived from it, so parallel runs do not collide
+MOLLI_HOME="$home" /venv/bin/python -m pytest -ra -q -p no:cacheprovider --timeout=900 --continue-on-collection-errors --junitxml="$out.xml" > "$out" 2>&1
 tail -8 "$out"
 /venv/bin/python - "$out.xml" <<'PY'
 import sys, json, xml.etree.ElementTree as ET
@@ -17,5 +18,5 @@ for m in missing: print('  NOT PASSING:', m)
 sys.exit(1 if missing else 0)
 PY
 rc=$?
-rm -f "$out" "$out.xml"
+rm -rf "$out" "$out.xml" "$home"
 exit $rc
